@@ -12,11 +12,13 @@ pub struct GenCfg {
     pub fragments: bool,
     pub directives: bool,
     pub typename: bool,
+    /// leave out interface- and union-typed fields (every type condition then applies)
+    pub no_abstract: bool,
 }
 
 impl Default for GenCfg {
     fn default() -> Self {
-        GenCfg { max_depth: 4, max_fields: 18, dup_keys: false, fragments: true, directives: true, typename: true }
+        GenCfg { max_depth: 4, max_fields: 18, dup_keys: false, fragments: true, directives: true, typename: true, no_abstract: false }
     }
 }
 
@@ -25,6 +27,12 @@ struct G {
     budget: i32,
     frags: Vec<String>,
     alias_n: u32,
+    /// occurrences of every response-key path (indices left out), before merging
+    occ: std::collections::BTreeMap<String, u32>,
+}
+
+fn join(prefix: &str, key: &str) -> String {
+    if prefix.is_empty() { key.to_string() } else { format!("{prefix}.{key}") }
 }
 
 fn is_composite(def: &FDef) -> bool {
@@ -32,7 +40,7 @@ fn is_composite(def: &FDef) -> bool {
 }
 
 impl G {
-    fn field(&mut self, parent: &str, def: &FDef, depth: u32, used: &mut Vec<(String, String)>, force_key: Option<String>) -> String {
+    fn field(&mut self, parent: &str, def: &FDef, depth: u32, used: &mut Vec<(String, String)>, force_key: Option<String>, prefix: &str) -> String {
         self.budget -= 1;
         let mut s = String::new();
         let args = if def.arg {
@@ -55,6 +63,8 @@ impl G {
                 s.push_str(&format!("{key}: "));
             }
         }
+        let kp = join(prefix, &key);
+        *self.occ.entry(kp.clone()).or_insert(0) += 1;
         used.push((key, sig.clone()));
         s.push_str(&sig);
         if self.cfg.directives && chance(1, 12) {
@@ -63,7 +73,7 @@ impl G {
         if is_composite(def) {
             let ty = Ty::parse(def.ty);
             let mut sub_used = Vec::new();
-            let sub = self.sel_set(ty.named(), depth + 1, &mut sub_used);
+            let sub = self.sel_set(ty.named(), depth + 1, &mut sub_used, &kp);
             s.push_str(&format!(" {{ {sub} }}"));
         }
         s
@@ -72,7 +82,8 @@ impl G {
     fn pick_field<'a>(&mut self, fields: &'a [FDef], depth: u32) -> &'a FDef {
         // composite fields become rarer with depth and are excluded at the depth limit
         let leaves: Vec<&FDef> = fields.iter().filter(|f| !is_composite(f)).collect();
-        let comps: Vec<&FDef> = fields.iter().filter(|f| is_composite(f)).collect();
+        let no_abs = self.cfg.no_abstract;
+        let comps: Vec<&FDef> = fields.iter().filter(|f| is_composite(f) && !(no_abs && matches!(f.ret, Ret::Ent | Ret::Uni))).collect();
         let want_comp = !comps.is_empty() && depth < self.cfg.max_depth && self.budget > 2 && chance(if depth == 0 { 3 } else { 2 }, 5);
         if want_comp {
             comps[draw(comps.len() as u32) as usize]
@@ -82,7 +93,7 @@ impl G {
     }
 
     /// selection set text for values of the named type
-    fn sel_set(&mut self, ty: &str, depth: u32, used: &mut Vec<(String, String)>) -> String {
+    fn sel_set(&mut self, ty: &str, depth: u32, used: &mut Vec<(String, String)>, prefix: &str) -> String {
         let mut parts: Vec<String> = Vec::new();
         match ty {
             "Uni" => {
@@ -91,11 +102,11 @@ impl G {
                 }
                 let which = draw(3);
                 if which != 1 {
-                    let inner = self.sel_set("Node", depth, used);
+                    let inner = self.sel_set("Node", depth, used, prefix);
                     parts.push(format!("... on Node {{ {inner} }}"));
                 }
                 if which != 0 {
-                    let inner = self.sel_set("Leaf", depth, used);
+                    let inner = self.sel_set("Leaf", depth, used, prefix);
                     parts.push(format!("... on Leaf {{ {inner} }}"));
                 }
             }
@@ -104,14 +115,14 @@ impl G {
                 for _ in 0..n {
                     let name = ENT_FIELDS[draw(ENT_FIELDS.len() as u32) as usize];
                     let def = fields_of("Leaf").iter().find(|f| f.name == name).unwrap();
-                    parts.push(self.field("Ent", def, depth, used, None));
+                    parts.push(self.field("Ent", def, depth, used, None, prefix));
                 }
                 if chance(1, 2) {
-                    let inner = self.sel_set("Node", depth, used);
+                    let inner = self.sel_set("Node", depth, used, prefix);
                     parts.push(format!("... on Node {{ {inner} }}"));
                 }
                 if chance(1, 3) {
-                    let inner = self.sel_set("Leaf", depth, used);
+                    let inner = self.sel_set("Leaf", depth, used, prefix);
                     parts.push(format!("... on Leaf {{ {inner} }}"));
                 }
                 if self.cfg.typename && chance(1, 6) {
@@ -137,10 +148,12 @@ impl G {
                             }
                             s.push_str(&sig);
                             self.budget -= 1;
+                            let kp = join(prefix, &key);
+                            *self.occ.entry(kp.clone()).or_insert(0) += 1;
                             if is_composite(def) {
                                 let t = Ty::parse(def.ty);
                                 let mut sub_used = Vec::new();
-                                let sub = self.sel_set(t.named(), depth + 1, &mut sub_used);
+                                let sub = self.sel_set(t.named(), depth + 1, &mut sub_used, &kp);
                                 s.push_str(&format!(" {{ {sub} }}"));
                             }
                             let wrapped = match draw(3) {
@@ -160,20 +173,20 @@ impl G {
                     let wrap = if self.cfg.fragments { draw(8) } else { 0 };
                     match wrap {
                         5 => {
-                            let s = self.field(ty, &def, depth, used, None);
+                            let s = self.field(ty, &def, depth, used, None, prefix);
                             parts.push(format!("... on {ty} {{ {s} }}"));
                         }
                         6 => {
-                            let s = self.field(ty, &def, depth, used, None);
+                            let s = self.field(ty, &def, depth, used, None, prefix);
                             parts.push(format!("... {{ {s} }}"));
                         }
                         7 => {
-                            let s = self.field(ty, &def, depth, used, None);
+                            let s = self.field(ty, &def, depth, used, None, prefix);
                             let name = format!("F{}", self.frags.len());
                             self.frags.push(format!("fragment {name} on {ty} {{ {s} }}"));
                             parts.push(format!("...{name}"));
                         }
-                        _ => parts.push(self.field(ty, &def, depth, used, None)),
+                        _ => parts.push(self.field(ty, &def, depth, used, None, prefix)),
                     }
                 }
                 if self.cfg.typename && chance(1, 10) {
@@ -187,21 +200,38 @@ impl G {
 
 /// `op` is "query" or "mutation".
 pub fn gen_operation(op: &str, cfg: GenCfg) -> String {
-    let mut g = G { cfg, budget: cfg.max_fields, frags: vec![], alias_n: 0 };
+    gen_operation_full(op, cfg).0
+}
+
+pub fn gen_operation_occ(op: &str, cfg: GenCfg) -> (String, std::collections::BTreeMap<String, u32>) {
+    let (t, o, _) = gen_operation_full(op, cfg);
+    (t, o)
+}
+
+/// Also returns the occurrences of every response-key path before merging, and the root response
+/// keys in document order.
+pub fn gen_operation_full(op: &str, cfg: GenCfg) -> (String, std::collections::BTreeMap<String, u32>, Vec<String>) {
+    let mut g = G { cfg, budget: cfg.max_fields, frags: vec![], alias_n: 0, occ: Default::default() };
     let root = if op == "mutation" { "Mutation" } else { "Query" };
     let mut used = Vec::new();
-    let body = g.sel_set(root, 0, &mut used);
+    let body = g.sel_set(root, 0, &mut used, "");
     let mut text = format!("{op} {{ {body} }}");
     for f in &g.frags {
         text.push('\n');
         text.push_str(f);
     }
-    text
+    let mut roots: Vec<String> = vec![];
+    for (k, _) in &used {
+        if !roots.contains(k) {
+            roots.push(k.clone());
+        }
+    }
+    (text, g.occ, roots)
 }
 
 /// A subscription document with `n_roots` root fields; returns (text, [(response key, field name, channel)]).
 pub fn gen_subscription(cfg: GenCfg, n_roots: u32, same_key: bool) -> (String, Vec<(String, String, i32)>) {
-    let mut g = G { cfg, budget: cfg.max_fields, frags: vec![], alias_n: 0 };
+    let mut g = G { cfg, budget: cfg.max_fields, frags: vec![], alias_n: 0, occ: Default::default() };
     let mut parts = vec![];
     let mut roots = vec![];
     for i in 0..n_roots {
@@ -209,8 +239,9 @@ pub fn gen_subscription(cfg: GenCfg, n_roots: u32, same_key: bool) -> (String, V
         let def = defs[draw(2) as usize]; // events / eventsOpt
         let key = if same_key { "e".to_string() } else { format!("e{i}") };
         let mut sub_used = Vec::new();
-        let sub = g.sel_set("Node", 1, &mut sub_used);
-        parts.push(format!("{key}: {}(ch: {i}) {{ {sub} }}", def.name));
+        sub_used.push(("id".to_string(), "id".to_string()));
+        let sub = g.sel_set("Node", 1, &mut sub_used, &key);
+        parts.push(format!("{key}: {}(ch: {i}) {{ id {sub} }}", def.name));
         roots.push((key, def.name.to_string(), i as i32));
     }
     let mut text = format!("subscription {{ {} }}", parts.join(" "));
